@@ -352,3 +352,37 @@ func lemmaResults() []*FuncResult {
 			"(= (isum V2 o2 (+ n m)) (+ (isum V1 o1 n) (isum V3 o3 m)))"),
 	}
 }
+
+// plainCodecResults: the `plaincodec` obligations of the property being checked.
+// Each is decided from go/types (method sets of T and *T) and rendered as a
+// trivial query so that it is reported, counted and replayed like any other
+// obligation: goal `true` when no codec method is declared, `false` (with the
+// offending method named in the clause text) otherwise.
+func plainCodecResults(l *Loaded, cs *Contracts, prop string) []*FuncResult {
+	var out []*FuncResult
+	for _, pc := range cs.PlainCodec {
+		if prop != "" && len(pc.Props) > 0 && !hasProp(pc.Props, prop) {
+			continue
+		}
+		for _, tn := range pc.Types {
+			obj := l.Pkg.Pkg.Scope().Lookup(tn)
+			goal, src := "true", "type "+tn+" declares no MarshalJSON / UnmarshalJSON / MarshalText / UnmarshalText"
+			if obj == nil {
+				goal, src = "false", "plaincodec: no type named "+tn
+			} else {
+				for _, t := range []types.Type{obj.Type(), types.NewPointer(obj.Type())} {
+					ms := types.NewMethodSet(t)
+					for _, m := range []string{"MarshalJSON", "UnmarshalJSON", "MarshalText", "UnmarshalText"} {
+						if ms.Lookup(l.Pkg.Pkg, m) != nil {
+							goal, src = "false", "type "+tn+" declares "+m+": encoding/json no longer treats it field by field"
+						}
+					}
+				}
+			}
+			b := &Builder{sorts: map[string]bool{}, declared: map[string]bool{}, strLits: map[string]string{}, typeIDs: map[string]int{}}
+			o := &Obligation{Name: "types/" + tn + "/plain-codec", Kind: "structural", Fn: "types(" + tn + ")", Pos: b.pos(), Goal: goal, Src: src, Where: fmt.Sprintf("contracts_verif.go:%d", pc.Line), Props: pc.Props}
+			out = append(out, &FuncResult{Name: "types(" + tn + ")/plain-codec", Builder: b, Obls: []*Obligation{o}})
+		}
+	}
+	return out
+}
